@@ -662,3 +662,110 @@ Proof.
 Qed.
 Theorem P_on_every_model_trace : forall ops, P_C09J (trace_of ops) = true.
 Proof. intros ops. apply (P_from_model ops pstate0 init JInv_init PInv_init). Qed.
+
+(* ---- (4) nothing outlives its owner at the gateway -------------------------------------------------------------- *)
+(* An id handed out that is out of mcu.clients stays out, for every continuation; and nothing of it is at the gateway
+   at the end when nothing of it was there at the start, or when the continuation contains a reconnect. *)
+Lemma bounds_kept : forall a st c, JInv st -> 0 < c < m_next st -> memN c (m_clients st) = false ->
+  0 < c < m_next (run_from st a).
+Proof.
+  induction a as [|o a IH]; intros st c J B M; simpl; [exact B|].
+  destruct (step_shrinks st o c ltac:(lia) ltac:(lia) M) as (S1 & _ & _ & S4).
+  apply IH; [apply step_inv, J | lia | auto].
+Qed.
+Lemma gone_forever : forall ops st c, JInv st -> 0 < c < m_next st -> memN c (m_clients st) = false ->
+  memN c (m_clients (run_from st ops)) = false /\
+  ((memN c (g_handles st) = false /\ memN c (g_rooms st) = false) \/ (exists f, In (OReconnect f) ops) ->
+   memN c (g_handles (run_from st ops)) = false /\ memN c (g_rooms (run_from st ops)) = false).
+Proof.
+  intros ops st c J B M. destruct (never_again ops st c ltac:(lia) ltac:(lia) M) as (N1 & _). split; [exact N1|].
+  intros [[E1 E2] | (f & Hin)]; [apply never_again_nothing; auto; lia|].
+  apply in_split in Hin. destruct Hin as (a & b & ->).
+  rewrite run_from_app. set (sa := run_from st a).
+  assert (Ja : JInv sa) by (apply run_from_inv, J).
+  destruct (never_again a st c ltac:(lia) ltac:(lia) M) as (Ma & _). fold sa in Ma.
+  assert (Ba : 0 < c < m_next sa) by (apply bounds_kept; auto).
+  change (run_from sa (OReconnect f :: b)) with (run_from (step_st sa (OReconnect f)) b).
+  set (sr := step_st sa (OReconnect f)).
+  destruct (step_shrinks sa (OReconnect f) c ltac:(lia) ltac:(lia) Ma) as (S1 & _ & _ & S4). fold sr in S1, S4.
+  destruct (reconnect_only_registered sa f c) as [R1 R2].
+  assert (Er : sr = fst (reconnect sa f)) by apply step_st_reconnect. rewrite <- Er in R1, R2.
+  pose proof (S1 Ma) as Mr. apply memN_false in Ma.
+  apply never_again_nothing; auto; try lia.
+  - apply memN_false. intros H. apply R1 in H. destruct H; [lia | tauto].
+  - apply memN_false. intros H. apply R2 in H. tauto.
+Qed.
+
+(* OCloseAll: every client the owner had when it was executed is out of the MCU's tables at every later point, and
+   nothing of it is at the gateway at any later point -- provided the gateway answered when OCloseAll was executed and
+   the client was still open then (its Close was carried out), or there has been a reconnect since. *)
+Theorem closeall_nothing_outlives : forall ops1 ow ops2 x,
+  let st0 := run ops1 in let st2 := run (ops1 ++ OCloseAll ow :: ops2) in
+  In x (m_objs st0) -> c_owner x = ow ->
+  memN (c_id x) (m_clients st2) = false /\ (forall k, ~ In (k, c_id x) (m_pubs st2)) /\
+  ((reachable st0 = true /\ c_closed x = false) \/ (exists f, In (OReconnect f) ops2) ->
+   memN (c_id x) (g_handles st2) = false /\ memN (c_id x) (g_rooms st2) = false).
+Proof.
+  intros ops1 ow ops2 x st0 st2 Hx Ho.
+  pose proof (reachable_inv ops1) as J0. fold st0 in J0.
+  assert (E2 : st2 = run_from (step_st st0 (OCloseAll ow)) ops2) by (unfold st2; rewrite run_app; reflexivity).
+  set (st1 := step_st st0 (OCloseAll ow)) in *.
+  assert (J1 : JInv st1) by (apply step_inv, J0).
+  assert (Est : st1 = fst (close_list st0 (owned_open st0 ow))) by apply step_st_closeall.
+  destruct (close_list_props (owned_open st0 ow) st0 J0) as (I1 & I2 & I3 & I4 & I5 & I6 & I7).
+  rewrite <- Est in I1, I2, I3, I4, I5, I7.
+  destruct (J_obj st0 J0 x Hx) as (O1 & O2 & O3 & _).
+  assert (M1 : memN (c_id x) (m_clients st1) = false).
+  { destruct (c_closed x) eqn:Hc.
+    - destruct (in_dec N.eq_dec (c_id x) (owned_open st0 ow)) as [Hl | Hl].
+      + apply I5; auto. rewrite (get_obj_of_In st0 x J0 Hx). discriminate.
+      + rewrite I4 by exact Hl. now rewrite O3.
+    - apply I5; [apply owned_open_In; exists x; auto | rewrite (get_obj_of_In st0 x J0 Hx); discriminate]. }
+  assert (B1 : 0 < c_id x < m_next st1) by (rewrite I2; lia).
+  destruct (gone_forever ops2 st1 (c_id x) J1 B1 M1) as [G1 G2]. rewrite <- E2 in G1, G2.
+  split; [exact G1|]. split.
+  - intros k Hin. assert (J2 : JInv st2) by (rewrite E2; apply run_from_inv, J1).
+    destruct (J_pubs st2 J2 k _ Hin) as (y & Hy & Hid & _ & _ & Hc).
+    destruct (J_obj st2 J2 y Hy) as (_ & _ & Y3 & _). rewrite Hid, Hc, G1 in Y3. discriminate.
+  - intros [[R Hc] | Hr]; apply G2; [left | right; exact Hr].
+    apply I7; auto; [apply owned_open_In; exists x; auto | now rewrite O3, Hc].
+Qed.
+
+(* OClose c: likewise for the one client *)
+Theorem close_nothing_outlives : forall ops1 c rd rt ops2,
+  let st0 := run ops1 in let st2 := run (ops1 ++ OClose c rd rt :: ops2) in
+  get_obj st0 c <> None ->
+  memN c (m_clients st2) = false /\ (forall k, ~ In (k, c) (m_pubs st2)) /\
+  ((reachable st0 = true /\ rd = false /\ rt = false /\ memN c (m_clients st0) = true) \/ (exists f, In (OReconnect f) ops2) ->
+   memN c (g_handles st2) = false /\ memN c (g_rooms st2) = false).
+Proof.
+  intros ops1 c rd rt ops2 st0 st2 G.
+  pose proof (reachable_inv ops1) as J0. fold st0 in J0.
+  assert (E2 : st2 = run_from (step_st st0 (OClose c rd rt)) ops2) by (unfold st2; rewrite run_app; reflexivity).
+  set (st1 := step_st st0 (OClose c rd rt)) in *.
+  assert (J1 : JInv st1) by (apply step_inv, J0).
+  assert (Est : st1 = fst (close st0 c rd rt)) by apply step_st_close.
+  assert (M1 : memN c (m_clients st1) = false) by (rewrite Est; now apply close_unreg).
+  assert (B1 : 0 < c < m_next st1).
+  { rewrite Est, close_next by exact J0. destruct (get_obj st0 c) as [x|] eqn:G'; [|congruence].
+    destruct (get_obj_In _ _ _ G') as [Hx Hid]. destruct (J_obj st0 J0 x Hx) as (O1 & O2 & _). lia. }
+  destruct (gone_forever ops2 st1 c J1 B1 M1) as [G1 G2]. rewrite <- E2 in G1, G2.
+  split; [exact G1|]. split.
+  - intros k Hin. assert (J2 : JInv st2) by (rewrite E2; apply run_from_inv, J1).
+    destruct (J_pubs st2 J2 k _ Hin) as (y & Hy & Hid & _ & _ & Hc).
+    destruct (J_obj st2 J2 y Hy) as (_ & _ & Y3 & _). rewrite Hid, Hc, G1 in Y3. discriminate.
+  - intros [(R & -> & -> & M) | Hr]; apply G2; [left | right; exact Hr].
+    rewrite Est. now apply close_clean.
+Qed.
+
+(* The condition "the client was still open" cannot be dropped: a client closed earlier while the gateway did not answer
+   keeps its handle and room there; a later OCloseAll of its owner, executed while the gateway answers, does not touch
+   them (Close of a closed client does nothing), and they stay until the next reconnect or restart. *)
+Definition leftover_history : list op :=
+  [ONewPub 1 0 false; OGwDown false; OClose 1 false false; OGwUp].
+Lemma closeall_while_up_all_clients_refuted :
+  reachable (run leftover_history) = true /\
+  (exists x, In x (m_objs (run leftover_history)) /\ c_owner x = 1 /\ c_id x = 1) /\
+  let st2 := run (leftover_history ++ [OCloseAll 1]) in
+  reachable st2 = true /\ memN 1 (g_handles st2) = true /\ memN 1 (g_rooms st2) = true /\ memN 1 (m_clients st2) = false.
+Proof. vm_compute. repeat split; auto. eexists. split; [left; reflexivity | auto]. Qed.
